@@ -222,6 +222,19 @@ func decideTotality(w *World, r *Report, funcs []*FuncInfo, contained func(fi *F
 				r.OK("alloc", fi.Key, inst, pos, fmt.Sprintf("size %v <= len(input)", a.Size), true)
 				continue
 			}
+			// a quotient A/B with A >= 0 and B >= 1 (B = 0 is a division panic, not an allocation) is at most A
+			if rel, num, ok := relaxQuotients(a.Size); ok && w.ProveX(rel, LenOf("P"), a.Facts) {
+				nonneg := true
+				for _, n := range num {
+					if !w.ProveX(Const(0), n, a.Facts) {
+						nonneg = false
+					}
+				}
+				if nonneg {
+					r.OK("alloc", fi.Key, inst, pos, fmt.Sprintf("size %v <= %v <= len(input) (a quotient of a non-negative amount by a positive size)", a.Size, rel), true)
+					continue
+				}
+			}
 			if !a.Size.HasAtom(func(at *Atom) bool { return strings.Contains(at.Path, "P[") || strings.HasPrefix(at.Path, "P") }) && !strings.Contains(a.Size.String(), "P[") {
 				r.OK("alloc", fi.Key, inst, pos, fmt.Sprintf("size %v does not depend on the input", a.Size), false)
 				continue
@@ -251,4 +264,26 @@ func runC08(w *World, r *Report) {
 		r.Fail(VViolation, "bounds", "protocol", "inventory", "-", fmt.Sprintf("only %d byte-slice consuming functions found in package protocol (reference tree: 45)", len(funcs)))
 	}
 	decideTotality(w, r, funcs, nil)
+}
+
+// relaxQuotients replaces every quotient A/B that occurs with a positive coefficient and a divisor that
+// cannot be negative by its numerator A (an upper bound when A >= 0); returns the numerators used.
+func relaxQuotients(t *Term) (*Term, []*Term, bool) {
+	out := Const(t.C)
+	var nums []*Term
+	found := false
+	for _, k := range t.keys() {
+		a, c := t.Atoms[k], t.K[k]
+		if a.Kind == "div" && c > 0 && len(a.Sub) == 2 {
+			b := a.Sub[1]
+			if (b.IsConst() && b.C >= 1) || (!b.IsConst() && b.NonNeg()) {
+				out = out.AddScaled(a.Sub[0], c)
+				nums = append(nums, a.Sub[0])
+				found = true
+				continue
+			}
+		}
+		out = out.AddScaled(FromAtom(a), c)
+	}
+	return out, nums, found
 }
